@@ -24,6 +24,7 @@ func checkC10(c *Ctx, r *Report) {
 	e1Assumptions(r, e)
 	cpyCompleteRule(c, r, "R10d")
 	primitiveCopyRule(c, r)
+	mergeIntoReferenceRule(c, r)
 	r.Rule("R10a", "Merge/NewFrom/MustNewFrom: the source parameter is not modified and nothing derived from it is stored into the destination, the options or package-level state", 9)
 	type ep struct {
 		fn  *ssa.Function
@@ -359,5 +360,132 @@ func primitiveCopyRule(c *Ctx, r *Report) {
 		}
 		r.Check(ok, "R10e", c.FnName(fn), "same kind, same payload", c.Pos(fn.Pos()), kinds[tn][0]+"(ctx, c.meta(), c."+kinds[tn][1]+")",
 			"the copy of a "+tn+" is not built by "+kinds[tn][0]+" from the receiver's own payload, metadata and the new context ("+why+"): a merged setting differs from its source in kind or value")
+	}
+}
+
+// mergeIntoReferenceRule (R10f): mergeValues merges the new sub-configuration into the old one in place. The old
+// one is the destination's own node only when the old value *is* a stored sub-config; a reference evaluates to a
+// config that lives elsewhere — under another key of the destination, or in a configuration given with Env — and
+// merging into that would write outside the key being merged. The destination handed to mergeConfig is the stored
+// sub-config (under isSub(old)) or a copy made here.
+func mergeIntoReferenceRule(c *Ctx, r *Report) {
+	r.Rule("R10f", "mergeValues merges in place only into a stored sub-config of the destination; what a reference evaluates to is copied first", 1)
+	mv := c.Func("", "mergeValues")
+	mc := c.Func("", "mergeConfig")
+	isSubF := c.TryFunc("", "isSub")
+	var old *ssa.Parameter
+	for _, p := range mv.Params {
+		if isNamed(p.Type(), modPath, "value") && old == nil {
+			old = p
+		}
+	}
+	n := 0
+	for _, ci := range CallsTo(mv, mc, false) {
+		n++
+		var dest ssa.Value
+		for _, a := range ci.Common().Args {
+			if typeStr(a.Type()) == "*ucfg.Config" && dest == nil {
+				dest = a
+			}
+		}
+		// every way the destination can come about: the evaluated old value under isSub(old), or a copy
+		ok, why := true, "stored sub-config or copy"
+		var check func(v ssa.Value, at *ssa.BasicBlock, d int)
+		check = func(v ssa.Value, at *ssa.BasicBlock, d int) {
+			if d > 6 {
+				ok, why = false, "too deep"
+				return
+			}
+			switch x := v.(type) {
+			case *ssa.Phi:
+				for i, e := range x.Edges {
+					check(e, x.Block().Preds[i], d+1)
+				}
+				return
+			case *ssa.Extract:
+				if call, isCall := x.Tuple.(*ssa.Call); isCall && call.Call.IsInvoke() && call.Call.Method.Name() == "toConfig" && call.Call.Value == ssa.Value(old) {
+					// the live result of old.toConfig: fine when old is a stored sub-config
+					sub := false
+					// the test "old is a stored sub-config": isSub(old), or a comma-ok assertion of old to cfgSub
+					isSubTest := func(v ssa.Value) (bool, bool) {
+						neg := false
+						for {
+							u, isU := v.(*ssa.UnOp)
+							if !isU || u.Op != token.NOT {
+								break
+							}
+							neg, v = !neg, u.X
+						}
+						if cc, isC := v.(*ssa.Call); isC && isSubF != nil && IsCallTo(cc, isSubF) && cc.Call.Args[0] == ssa.Value(old) {
+							return true, neg
+						}
+						if e, isE := v.(*ssa.Extract); isE && e.Index == 1 {
+							if ta, isTA := e.Tuple.(*ssa.TypeAssert); isTA && ta.CommaOk && ta.X == ssa.Value(old) && typeStr(ta.AssertedType) == "ucfg.cfgSub" {
+								return true, neg
+							}
+						}
+						return false, false
+					}
+					for _, cd := range DomConds(at) {
+						if is, neg := isSubTest(cd.V); is && cd.Truth != neg {
+							sub = true
+						}
+					}
+					// the edge itself: at ends in a test of it and the φ is on its true side
+					if ifi, isIf := lastInstr(at).(*ssa.If); isIf {
+						if is, neg := isSubTest(ifi.Cond); is {
+							side := 0
+							if neg {
+								side = 1
+							}
+							for _, ref := range *x.Referrers() {
+								if phi, isPhi := ref.(*ssa.Phi); isPhi && at.Succs[side] == phi.Block() {
+									sub = true
+								}
+							}
+						}
+					}
+					if !sub {
+						ok, why = false, "the live result of old.toConfig() without a test that old is a stored sub-config"
+					}
+					return
+				}
+			}
+			// the config of a copy made here: cfgSub{…}.cpy(ctx).toConfig(opts)
+			if ex, isEx := v.(*ssa.Extract); isEx {
+				if call, isCall := ex.Tuple.(*ssa.Call); isCall && call.Call.IsInvoke() && call.Call.Method.Name() == "toConfig" {
+					for _, s := range append(Sources(call.Call.Value), call.Call.Value) {
+						if cp, isCp := s.(*ssa.Call); isCp && calledName(cp) == "cpy" {
+							return
+						}
+					}
+				}
+			}
+			// a copy: derives from a cpy call
+			for _, s := range append(Sources(v), v) {
+				if call, isCall := s.(*ssa.Call); isCall && calledName(call) == "cpy" {
+					return
+				}
+				if f, isF := s.(*ssa.Field); isF {
+					for _, s2 := range append(Sources(f.X), f.X) {
+						if call, isCall := s2.(*ssa.Call); isCall && calledName(call) == "cpy" {
+							return
+						}
+						if ta, isTA := s2.(*ssa.TypeAssert); isTA {
+							if call, isCall := ta.X.(*ssa.Call); isCall && calledName(call) == "cpy" {
+								return
+							}
+						}
+					}
+				}
+			}
+			ok, why = false, "neither the stored sub-config nor a copy ("+v.String()+")"
+		}
+		check(dest, ci.(ssa.Instruction).Block(), 0)
+		r.Check(ok, "R10f", c.FnName(mv), "merge target owned", c.Pos(ci.Pos()), why,
+			"mergeValues merges in place into "+why+": when the old value is a reference, the merge writes into the section the reference points to — an unrelated key of the destination, or a configuration that was only given with Env — instead of into the key being merged")
+	}
+	if n == 0 {
+		r.add("R10f", c.FnName(mv), "merge target owned", c.Pos(mv.Pos()), Undecided, true, "mergeValues does not call mergeConfig")
 	}
 }
